@@ -77,7 +77,7 @@ Definition ops (e : entry) : list op :=
   | KFile =>
       if scan_excluded (e_cols e) false then []
       else if count_excluded (e_cols e) then []
-      else [(e_parent e, (if 0 <? e_depth e then e_depth e - 1 else 0), OF)]
+      else if 0 <? e_depth e then [(e_parent e, e_depth e - 1, OF)] else []
   | KDir =>
       if scan_excluded (e_cols e) true then []
       else (e_path e, e_depth e, OT)
@@ -91,7 +91,8 @@ Proof.
   intros m e. unfold step, ops.
   destruct (e_kind e).
   - destruct (scan_excluded (e_cols e) false); [reflexivity|].
-    destruct (count_excluded (e_cols e)); reflexivity.
+    destruct (count_excluded (e_cols e)); [reflexivity|].
+    destruct (0 <? e_depth e); reflexivity.
   - destruct (scan_excluded (e_cols e) true); [reflexivity|].
     destruct ((0 <? e_depth e) && negb (count_excluded (e_cols e))); reflexivity.
   - reflexivity.
@@ -225,12 +226,13 @@ Proof. intros. unfold tops. simpl. rewrite H. reflexivity. Qed.
 
 Lemma tops_file : forall pp a b d n c,
   tops pp a b d (File n c) =
-  if counted_file (File n c) then [(pp, (if 0 <? d then d - 1 else 0), OF)] else [].
+  if counted_file (File n c) && (0 <? d) then [(pp, d - 1, OF)] else [].
 Proof.
   intros. unfold tops. simpl. destruct (c_skip c); simpl; [reflexivity|].
   unfold ops; simpl. unfold e_parent; simpl.
   destruct (scan_excluded c false); simpl; [reflexivity|].
-  destruct (count_excluded c); reflexivity.
+  destruct (count_excluded c); simpl; [reflexivity|].
+  destruct (0 <? d); reflexivity.
 Qed.
 
 Lemma tops_other : forall pp a b d n c, tops pp a b d (Other n c) = [].
@@ -271,7 +273,7 @@ Lemma tops_keys : forall t pp a b d o,
   In o (tops pp a b d t) -> okey o = pp \/ under (tname t :: pp) (okey o).
 Proof.
   induction t as [n c|n c|n c ch IH] using tree_ind'; intros pp a b d o Hin.
-  - rewrite tops_file in Hin. destruct (counted_file (File n c)); simpl in Hin; [|contradiction].
+  - rewrite tops_file in Hin. destruct (counted_file (File n c) && (0 <? d)); simpl in Hin; [|contradiction].
     destruct Hin as [<-|[]]. left. reflexivity.
   - rewrite tops_other in Hin. contradiction.
   - destruct (pruned_dir c) eqn:Hp.
@@ -292,8 +294,9 @@ Lemma tops_consistent : forall t pp a b d,
   0 < d -> d = Z.of_nat (length pp) -> consistent dep (tops pp a b d t).
 Proof.
   induction t as [n c|n c|n c ch IH] using tree_ind'; intros pp a b d Hd Hl.
-  - rewrite tops_file. destruct (counted_file (File n c)); constructor; [|constructor].
-    unfold odep, okey, dep; cbn [fst snd]. apply Z.ltb_lt in Hd. rewrite Hd. lia.
+  - rewrite tops_file. assert (Hd' : (0 <? d) = true) by (apply Z.ltb_lt; exact Hd). rewrite Hd', andb_true_r.
+    destruct (counted_file (File n c)); constructor; [|constructor].
+    unfold odep, okey, dep; cbn [fst snd]. lia.
   - rewrite tops_other. constructor.
   - destruct (pruned_dir c) eqn:Hp.
     + rewrite tops_dir_pruned by exact Hp. constructor.
@@ -369,7 +372,8 @@ Lemma tops_parent_counts : forall t pp a b d, 0 < d ->
   cnt OD (tops pp a b d t) pp = (if counted_dir t then 1 else 0).
 Proof.
   intros t pp a b d Hd. destruct t as [n c|n c ch|n c].
-  - rewrite tops_file. destruct (counted_file (File n c)); simpl; rewrite ?path_eqb_refl; simpl; split; reflexivity.
+  - rewrite tops_file. assert (Hd' : (0 <? d) = true) by (apply Z.ltb_lt; exact Hd). rewrite Hd', andb_true_r.
+    destruct (counted_file (File n c)); simpl; rewrite ?path_eqb_refl; simpl; split; reflexivity.
   - destruct (pruned_dir c) eqn:Hp.
     + rewrite tops_dir_pruned by exact Hp. simpl. rewrite Hp. simpl. split; reflexivity.
     + rewrite tops_dir by exact Hp. rewrite !cnt_app.
@@ -461,7 +465,7 @@ Lemma subtree_agrees : forall t pp a b d k,
 Proof.
   induction t as [n c|n c|n c ch IH] using tree_ind'; intros pp a b d k Hwf Hd Hl Hu.
   - apply agrees_nothing.
-    + intros o Ho E. rewrite tops_file in Ho. destruct (counted_file (File n c)); simpl in Ho; [|contradiction].
+    + intros o Ho E. rewrite tops_file in Ho. destruct (counted_file (File n c) && (0 <? d)); simpl in Ho; [|contradiction].
       destruct Ho as [<-|[]]. unfold okey in E; simpl in E. subst k. apply (under_cons_neq n pp). exact Hu.
     + simpl. tauto.
   - rewrite tops_other. apply agrees_nothing; simpl; tauto.
